@@ -77,4 +77,20 @@ def knownOverrides : List (String × String × Bool) := [
   ("ZeroLinearOperator", "add_diagonal", false),
   ("ZeroLinearOperator", "_get_indices:fmod", false)]
 
+/-- Entries whose flag becomes `true` once the proposed guard patches land (notes/C19_fix_1..4.diff:
+Diag / Identity `inv_quad_logdet`, Zero `matmul`, KroneckerProductTriangular / LowRankRootAddedDiag `solve`
+call `_matmul_broadcast_shape`).  Accepted next to the baseline so that the obligation holds on the
+unpatched and on the patched tree; a guard that *disappears* is still a mismatch. -/
+def fixedOverrides : List (String × String × Bool) := [
+  ("DiagLinearOperator", "inv_quad_logdet", true),
+  ("IdentityLinearOperator", "inv_quad_logdet", true),
+  ("KroneckerProductTriangularLinearOperator", "solve", true),
+  ("LowRankRootAddedDiagLinearOperator", "solve", true),
+  ("ZeroLinearOperator", "matmul", true)]
+
+/-- same (class, method) keys in the same order, and every entry is the baseline one or a listed fixed one -/
+def overridesOk (t : List (String × String × Bool)) : Bool :=
+  t.map (fun o => (o.1, o.2.1)) == knownOverrides.map (fun o => (o.1, o.2.1)) &&
+  t.all (fun o => knownOverrides.contains o || fixedOverrides.contains o)
+
 end LinOp.C19
